@@ -286,9 +286,9 @@ pub fn run(prop: &str, tier: Tier) -> ! {
     cov.insert("rule".into(), json!("explicit-state BFS; a state is a canonical (cookie-renamed) model state, reached by replaying its history on a fresh real broker; every transition = one driver action executed on the real Broker + Connection tasks and on refbus, outputs of every connection and the full internal snapshot compared; distinct = distinct canonical states"));
     cov.insert("exhaustive".into(), json!(all_exhaustive));
     cov.insert("scenarios".into(), json!(per));
-    if prop == "C12" {
+    if matches!(prop, "C04" | "C05" | "C10" | "C12") {
         // the client half ran just before (taskmc, see `check`) and left its counts behind
-        match std::fs::read_to_string(mcx::report::verif_root().join(".work/c12-client.json")).ok().and_then(|t| serde_json::from_str::<serde_json::Value>(&t).ok()) {
+        match std::fs::read_to_string(mcx::report::verif_root().join(".work").join(format!("{}-client.json", prop.to_lowercase()))).ok().and_then(|t| serde_json::from_str::<serde_json::Value>(&t).ok()) {
             Some(v) => {
                 cov.insert("client_half".into(), v);
             }
